@@ -171,9 +171,23 @@ class VRLock:
         self.release()
 
 
+def selected(co) -> bool:
+    """Scheduling points live in: every function of the two lazy-loading package modules; every method of the
+    dialect metaclass and of Dialect; in generator.py the module-level functions (dispatch-table construction,
+    whatever they are called) and Generator.__init__. Chosen structurally, so renames / extractions are followed."""
+    fn = co.co_filename
+    if fn not in SEL_FILES:
+        return False
+    qn = co.co_qualname
+    if fn.endswith("/generator.py"):
+        return "." not in qn or qn == "Generator.__init__" or "<locals>" in qn and qn.split(".")[0] in ("Generator",) and False
+    if fn.endswith("/dialects/dialect.py"):
+        return qn.startswith("_Dialect.") or qn.startswith("Dialect.") and co.co_name in SEL_FUNCS
+    return True
+
+
 def _tracer(frame, event, arg):
-    co = frame.f_code
-    if co.co_name in SEL_FUNCS and co.co_filename in SEL_FILES:
+    if selected(frame.f_code):
         return _local
     return None
 
